@@ -9,9 +9,71 @@
 #include <osmium/osm/item_type.hpp>
 #include <osmium/index/relations_map.hpp>
 #include <osmium/relations/members_database.hpp>
+#include <osmium/io/detail/opl_parser_functions.hpp>
+#include <osmium/io/detail/string_util.hpp>
+#include <osmium/osm/timestamp.hpp>
 #include <cstdio>
 #include <cstdint>
-int main() {
+#include <fstream>
+#include <string>
+
+static std::string unhex(const std::string& h) {
+    std::string out;
+    if (h == "-") return out;
+    for (size_t i = 0; i + 1 < h.size(); i += 2) out += static_cast<char>(std::stoi(h.substr(i, 2), nullptr, 16));
+    return out;
+}
+
+// ---- phase 3: character cursors.  One input per line: `kind hexbytes`; the buffer is the bytes followed by a NUL.
+// Output: `kind hex ok <value> <cursor offset>` or `kind hex <exception class> <cursor offset>`
+static void cursor_tests(const char* path) {
+    std::ifstream in{path};
+    std::string kind, hex;
+    while (in >> kind >> hex) {
+        const std::string s = unhex(hex);
+        const char* p = s.c_str();
+        if (kind == "oplint64" || kind == "oplintu32" || kind == "oplid") {
+            try {
+                long long v = 0;
+                if (kind == "oplint64") v = osmium::io::detail::opl_parse_int<int64_t>(&p);
+                else if (kind == "oplintu32") v = osmium::io::detail::opl_parse_int<uint32_t>(&p);
+                else v = osmium::io::detail::opl_parse_id(&p);
+                std::printf("%s %s ok %lld %ld\n", kind.c_str(), hex.c_str(), v, static_cast<long>(p - s.c_str()));
+            } catch (const osmium::opl_error&) {
+                std::printf("%s %s osmium::opl_error %ld\n", kind.c_str(), hex.c_str(), static_cast<long>(p - s.c_str()));
+            }
+        } else if (kind == "oplvisible") {
+            try {
+                const bool v = osmium::io::detail::opl_parse_visible(&p);
+                std::printf("%s %s ok %d %ld\n", kind.c_str(), hex.c_str(), int(v), static_cast<long>(p - s.c_str()));
+            } catch (const osmium::opl_error&) {
+                std::printf("%s %s osmium::opl_error %ld\n", kind.c_str(), hex.c_str(), static_cast<long>(p - s.c_str()));
+            }
+        } else if (kind == "oplspace") {
+            try {
+                osmium::io::detail::opl_parse_space(&p);
+                std::printf("%s %s ok 0 %ld\n", kind.c_str(), hex.c_str(), static_cast<long>(p - s.c_str()));
+            } catch (const osmium::opl_error&) {
+                std::printf("%s %s osmium::opl_error %ld\n", kind.c_str(), hex.c_str(), static_cast<long>(p - s.c_str()));
+            }
+        } else if (kind == "oplnonempty") {
+            std::printf("%s %s ok %d 0\n", kind.c_str(), hex.c_str(), int(osmium::io::detail::opl_non_empty(p)));
+        } else if (kind == "fracsec") {
+            const bool v = osmium::detail::fractional_seconds(&p);
+            std::printf("%s %s ok %d %ld\n", kind.c_str(), hex.c_str(), int(v), static_cast<long>(p - s.c_str()));
+        }
+        if (kind == "coord") {
+            try {
+                const int32_t v = osmium::detail::string_to_location_coordinate(&p);
+                std::printf("coord %s ok %d %ld\n", hex.c_str(), v, static_cast<long>(p - s.c_str()));
+            } catch (const osmium::invalid_location&) {
+                std::printf("coord %s osmium::invalid_location %ld\n", hex.c_str(), static_cast<long>(p - s.c_str()));
+            }
+        }
+    }
+}
+
+int main(int argc, char** argv) {
     const uint64_t ls[] = {0, 1, 7, 8, 9, 63, 64, 65, 1000, 18446744073709551608ULL, 18446744073709551609ULL, 18446744073709551613ULL, 18446744073709551615ULL};
     for (auto l : ls) std::printf("pl %lu %lu\n", l, osmium::memory::padded_length(l));
     const int64_t ids[] = {0, 1, -1, 5, -5, 7, -7, INT64_MAX, INT64_MIN + 1, INT64_MIN};
@@ -102,4 +164,5 @@ int main() {
         const uint32_t vs[] = {0, 1, 2147483647u, 2147483648u, 2147483649u, 4294967295u};
         for (auto v : vs) for (int d = 0; d < 2; ++d) { nd.set_deleted(d != 0); nd.set_version(v); std::printf("sv %u %d %u %d\n", v, d, nd.version(), int(nd.deleted())); }
     }
+    if (argc > 1) cursor_tests(argv[1]);
 }
